@@ -13,9 +13,15 @@
   | `fits_trivially`                     | `fitsTriviallyR`/`fitsTriviallyO` (PM/RangeOps), `fitsTrivially` (PM/TypePlan) |
   | `can_change_type`                    | `canChangeType` (PM/Structure2), `canChangeTypeR` (PM/TypePlan)             |
   | `node.is_textblock`                  | `Schema.isTextblock` (PM/Structure2), `Schema.isTextblockN` (PM/TypePlan), `Schema.isTextblockO` (PM/Fitter) |
-  | text-stability of a schema           | `FromDom.TextStable` ⟹ `TextLoop` ⟹ `TextStableP` (= `C01.TextStable`), none reversible |
 
+  | `pos_.node_after` / `node_before`    | `RPos.nodeAfter`/`nodeBefore` (PM/Resolve) = `.join` of `RPos.nodeAfterR`/`nodeBeforeR` (PM/Structure2) |
+  | `pos_.after(d)`                      | `RPos.after` (PM/Resolve), `RPos.afterT` (PM/StructEdit)                    |
+  | `str.isspace`                        | `FromDom.isPySpace` = `SchemaCompile.isPySpace`                             |
+
+  (the text-stability conditions are in Proofs/UnifyText.lean, which needs the heavier imports).
   `insert_point`: PM/ReplaceRange.lean calls `insertPointR` of PM/Structure2.lean — one copy only.
+  Already related elsewhere: `nodesBetweenP` ~ `nodesBetween` (Proofs/MarkPlan.lean), `sliceToks'` =
+  `Slice.toks` (Proofs/Respects.lean).
 -/
 import PM.Fill
 import PM.FillOrder
@@ -25,6 +31,8 @@ import PM.Fitter
 import PM.FromDom
 import PM.RangeOps
 import PM.Structure2
+import PM.StructEdit
+import PM.SchemaCompile
 import Proofs.DfaRun
 import Proofs.Fill
 import Proofs.Wrap
@@ -562,5 +570,77 @@ theorem createAndFill_eq_toOption (S : Schema)
             simpa using hm.symm
           simp only [key, fragOfOpts, mapM_id_map_some, hfa, ht, Bool.false_eq_true, if_false, happ, hmk,
             Built.toOption]
+
+/-! ## smaller copies -/
+
+/-- `str.isspace` is written out twice (parser, schema compiler): the same character table -/
+theorem isPySpace_eq : FromDom.isPySpace = SchemaCompile.isPySpace := rfl
+
+/-- `to.after(d)` of `lift` (PM/StructEdit.lean, total on the depths `lift` asks for) is `RPos.after`
+    (PM/Resolve.lean) there -/
+theorem RPos.after_eq_afterT (r : RPos) (d : Nat) (h1 : 1 ≤ d) (h2 : d ≤ r.depth + 1) :
+    r.after d = some (r.afterT d) := by
+  unfold RPos.after RPos.afterT
+  have h0 : ¬ d = 0 := by omega
+  by_cases hd : d = r.depth + 1
+  · simp [hd]
+  · have : d ≤ r.depth := by omega
+    simp [h0, hd, this]
+
+/-- inside a text child, strictly (what `resolve` guarantees whenever `text_offset ≠ 0`) -/
+def RPos.InText (r : RPos) : Prop :=
+  r.textOffset ≠ 0 → ∃ s m, r.parent.kids[r.index r.depth]? = some (.text s m) ∧ r.textOffset < s.length
+
+private theorem splitOk_zero' (s : List Nat) : splitOk s 0 = true := by simp [splitOk]
+
+private theorem splitOk_len (s : List Nat) : splitOk s s.length = true := by
+  unfold splitOk
+  cases h : s.length with
+  | zero => rfl
+  | succ k =>
+    have : s[k + 1]? = none := by simp [h]
+    simp [this]
+
+/-- `pos_.node_after` twice: `RPos.nodeAfterR` (PM/Structure2.lean) tells "raises" (`none`) from "no node"
+    (`some none`); `RPos.nodeAfter` (PM/Resolve.lean) answers `none` for both -/
+theorem RPos.nodeAfter_eq_join (r : RPos) (h : r.InText) : r.nodeAfter = r.nodeAfterR.join := by
+  unfold RPos.nodeAfter RPos.nodeAfterR
+  cases hc : r.parent.kids[r.index r.depth]? with
+  | none => rfl
+  | some c =>
+    by_cases h0 : r.textOffset = 0
+    · simp [h0]
+    · obtain ⟨s, m, hs, hlt⟩ := h h0
+      rw [hc] at hs
+      simp only [Option.some.injEq] at hs
+      subst hs
+      simp only [h0, if_false, Node.cut, cutText, splitOk_len, Bool.not_true, Bool.or_false]
+      have hne : ¬ (r.textOffset = 0 ∧ s.length = s.length) := fun h => h0 h.1
+      by_cases hsp : splitOk s r.textOffset = true
+      · have hr : ¬ s.length ≤ r.textOffset := by omega
+        simp [hsp, hr, Except.map]
+      · simp [hsp, Except.map]
+
+/-- `pos_.node_before` likewise -/
+theorem RPos.nodeBefore_eq_join (r : RPos) (h : r.InText) : r.nodeBefore = r.nodeBeforeR.join := by
+  unfold RPos.nodeBefore RPos.nodeBeforeR
+  by_cases h0 : r.textOffset = 0
+  · simp only [h0, ne_eq, not_true_eq_false, if_false]
+    by_cases hi : r.index r.depth = 0
+    · simp [hi]
+    · simp only [hi, if_false]
+      cases r.parent.kids[r.index r.depth - 1]? <;> rfl
+  · obtain ⟨s, m, hs, hlt⟩ := h h0
+    simp only [ne_eq, h0, not_false_eq_true, if_true, hs, Node.cut, cutText, splitOk_zero']
+    by_cases hsp : splitOk s r.textOffset = true
+    · have hr : ¬ (r.textOffset = 0 ∨ s = []) := by
+        intro h
+        rcases h with h | h
+        · exact h0 h
+        · simp [h] at hlt
+      have hne : ¬ r.textOffset = s.length := by omega
+      simp [hsp, hr, hne, Except.map]
+    · have hne : ¬ r.textOffset = s.length := by omega
+      simp [hsp, hne, Except.map]
 
 end PM
